@@ -23,6 +23,31 @@ func lineCountRef(b []byte) int {
 	return n
 }
 
+// cutReader delivers data[:cut], then the rest, then io.EOF.
+type cutReader struct {
+	data  []byte
+	cut   int
+	phase int
+}
+
+func (r *cutReader) Read(p []byte) (int, error) {
+	var chunk []byte
+	switch r.phase {
+	case 0:
+		chunk = r.data[:r.cut]
+	case 1:
+		chunk = r.data[r.cut:]
+	default:
+		return 0, io.EOF
+	}
+	r.phase++
+	if len(chunk) > len(p) {
+		panic("cutReader: destination too small")
+	}
+	copy(p, chunk)
+	return len(chunk), nil
+}
+
 var c01Templates = []string{
 	"\xffA\xffA\n\n\xffA",                         // 0: ⟨2⟩ blank ⟨1⟩
 	"a\xffE\xffE\xffWb\xffA",                        // 1: a EOL EOL EOL|SP b ⟨1⟩
@@ -35,6 +60,9 @@ var c01Templates = []string{
 	"\xffA\xffA\n\n\xffA\xffA",                    // 7
 	"a\n#\xffA\xffA\n\xffA\xffA",                  // 8
 	"\xffW\xffW\xffA\xffW\xffW\xffA\xffW",          // 9
+	// streaming schedules (entries 2 and 3):
+	"\xffA\xffE\xffE\xffA",                        // 10: byte, two line-ending bytes, byte
+	"a\r\n\r\n\xffA\r\n",                          // 11: CRLF document
 }
 
 func H_C01_F(n, entry int) {
@@ -61,9 +89,20 @@ func c01(in []byte, entry int) {
 		}
 		blocks, _ = Parse(in)
 		vunfreezeBytes(in)
-	} else {
+	} else if entry == 1 {
 		var err error
 		blocks, _, err = parseStream(&oneShotReader{data: cloneBytes(in)})
+		check(err == io.EOF, "C01.stream-eof")
+	} else {
+		// entry 2: streaming under a symbolic read schedule (chunk sizes, empty reads,
+		// EOF together with the last data are solver variables; reader of C08)
+		var err error
+		if entry == 2 {
+			blocks, _, err = parseStream(&schedReader{data: cloneBytes(in), limit: n})
+		} else {
+			// entry 3: the input arrives in two reads, cut at a solver-chosen point
+			blocks, _, err = parseStream(&cutReader{data: cloneBytes(in), cut: vconcrete(nondetInt(0, n))})
+		}
 		check(err == io.EOF, "C01.stream-eof")
 	}
 	prevEnd := 0
